@@ -22,7 +22,9 @@ Obj(k) == [k |-> k, links |-> EmptyFn, dt |-> NoDt, dims |-> <<>>, max |-> <<>>,
            attrs |-> EmptyFn, t |-> <<>>,
            wdims |-> <<>>,       \* extents when the data was last written
            lo |-> <<>>,          \* per dimension: smallest extent since the data was last written
-           regrown |-> FALSE]    \* some dimension grew again after having been shrunk below the written extent
+           regrown |-> FALSE,    \* some dimension grew again after having been shrunk below the written extent
+           grownbare |-> <<>>]   \* a dataset that was never written and has been resized: per dimension the smallest extent it
+                                 \* has had; what lies beyond was added by Resize and reads as zero (C13); <<>> otherwise
 
 -----------------------------------------------------------------------------
 (* path resolution through the link graph; -1 = does not resolve *)
